@@ -942,8 +942,8 @@ class Machine:
                     pass
             self.sel.close()
             self.srv.close()
-        texts = {}
-        res = {"verdict": verdict, "status": status, "after": snapshot(self.cwd, texts), "after_text": texts, "tmp_after": snapshot_tmp() if self.env["private_tmp"] else {},
+        texts, modes = {}, {}
+        res = {"verdict": verdict, "status": status, "after": snapshot(self.cwd, texts, modes), "after_text": texts, "after_mode": modes, "tmp_after": snapshot_tmp() if self.env["private_tmp"] else {},
                "before": self.before, "tmp_before": self.tmp_before, "inv": self.inv_state, "log": self.log, "choices": self.choices,
                "loghash": sha("\n".join(self.log)), "stderr": {}, "stdout": {}, "events": self.nevents,
                "context_switches": self.context_switches, "interleaved_with_temps": self.interleaved_with_temps, "fault_fired": list(self.fault_fired)}
@@ -966,6 +966,7 @@ def close_stdin():
 
 def pre_exec(inv, reference=False):
     def f():
+        os.umask(0o022)
         if inv["stdout"] == "closed":
             os.close(1)
         elif inv.get("stdin") == "closed":
@@ -987,7 +988,7 @@ def snapshot_tmp():
     return out
 
 
-def snapshot(d, texts=None):
+def snapshot(d, texts=None, modes=None):
     out = {}
     for root, dirs, fs in os.walk(d):
         for f in fs:
@@ -1000,6 +1001,8 @@ def snapshot(d, texts=None):
                     with open(p, "rb") as fh:
                         data = fh.read()
                     out[rel] = hashlib.sha1(data).hexdigest()[:16]
+                    if modes is not None:
+                        modes[rel] = os.stat(p).st_mode & 0o777
                     if texts is not None and rel.endswith((".d", ".dm", ".i")) and len(data) < 200000:
                         texts[rel] = data.decode(errors="replace")
             except OSError as e:
@@ -1386,6 +1389,25 @@ def check(env, wdir, scn, res, solo, refs, which):
             t = m["out"] or "a.out"
             if not t.startswith("/") and res["before"].get(t) != res["after"].get(t):
                 v.append(("O2-output-of-unstarted-unit-touched", i, "the linker was never started, yet %s changed" % t))
+        # O4b a unit whose own steps all succeeded has its output, whatever happens to the units after it
+        if m["mode"] in ("S", "c") and not m["refused"]:
+            started_l = set(c["label"] for c in st["children"])
+            failed_l = set(f[0] for f in failed)
+            for tu in m["tus"]:
+                steps_tu = [s for s in (tu["cc1"], tu["as"]) if s]
+                if not tu["output"] or tu["output"].startswith("/") or not steps_tu:
+                    continue
+                if all(s in started_l for s in steps_tu) and not any(s in failed_l for s in steps_tu) \
+                        and all(any(lab == s and how.startswith(("after-exit-0", "after-_exit-0")) for lab, how in st["ended"]) for s in steps_tu):
+                    if res["after"].get(tu["output"]) is None and not any(t2 is not tu and t2["output"] == tu["output"] for t2 in m["tus"]):
+                        v.append(("O4-output-of-successful-unit-missing", i, "every step for %s succeeded, yet %s does not exist when the command returns (status %d)" % (tu["input"], tu["output"], status)))
+        # O4c what the command creates is as accessible as the caller's umask (022) allows: others can read it
+        for o in m["requested"]:
+            if o.startswith("/") or res["before"].get(o) is not None or res["after"].get(o) is None:
+                continue
+            mode = res.get("after_mode", {}).get(o)
+            if mode is not None and (mode & 0o044) != 0o044:
+                v.append(("O4-output-permissions", i, "%s is created with mode %03o under umask 022" % (o, mode)))
         # O1c the command is over when the driver exits: every step must have ended by then (and its status been seen)
         if st["orphans"] and not any(f.get("proc") == "driver" for f in inv["faults"]):
             v.append(("O1-driver-returns-before-its-steps-end", i, "the driver exited while %s was still running" % ", ".join(st["orphans"])))
